@@ -233,7 +233,11 @@ def gen_mixed(rng, template: Optional[str] = None) -> dict:
             names["in"][str(a)] = cand.pop(0)
         for r in outs:
             names["out"][str(r)] = cand.pop(0) if cand else f"res{r}"
-    return {"ops": ops, "names": names, "template": t, "companion": comp}
+    entry = rng.choice(["build", "build", "graph", "function"])
+    case = {"ops": ops, "names": names, "template": t, "companion": comp, "entry": entry}
+    if entry == "graph" and rng.random() < 0.4:
+        case["with_opset"] = rng.choice([20, 21])
+    return case
 
 
 _L11: dict = {}
@@ -270,37 +274,84 @@ def _run(case: dict, sel: str, fault: Optional[str] = None):
     with warnings.catch_warnings():
         warnings.simplefilter("ignore")
         with L.backend_setting(sel), (sb.installed() if fault else contextlib.nullcontext()):
-            for o in case["ops"]:
+            entry = case.get("entry", "build")
+            ops = case["ops"]
+
+            def ev(o, vals, in_body=False):
                 k = o["o"]
                 if k == "const":
                     arr = np.array(o["data"], dtype=NP[o["dt"]]).reshape(tuple(o["shape"]))
-                    vals.append(op.constant(value=arr) if o["how"] == "value" else initializer(arr))
-                elif k == "arg":
-                    vals.append(argument(Tensor(NP[o["dt"]], tuple(o["shape"]))))
-                elif k == "bin":
-                    vals.append(getattr(op, o["fn"])(vals[o["a"]], vals[o["b"]]))
-                elif k == "un":
-                    vals.append(getattr(op, o["fn"])(vals[o["a"]]))
-                elif k == "cast":
-                    vals.append(op.cast(vals[o["a"]], to=NP[o["to"]]))
-                elif k == "op17" and o["fn"] == "inline11":
+                    # (no initializers inside function bodies: FunctionProto has none)
+                    return op.constant(value=arr) if o["how"] == "value" or in_body else initializer(arr)
+                if k == "bin":
+                    return getattr(op, o["fn"])(vals[o["a"]], vals[o["b"]])
+                if k == "un":
+                    return getattr(op, o["fn"])(vals[o["a"]])
+                if k == "cast":
+                    return op.cast(vals[o["a"]], to=NP[o["to"]])
+                if k == "op17" and o["fn"] == "inline11":
                     from spox import inline
 
-                    vals.append(tuple(inline(_legacy11(tuple(o["kw"]["shape"])))(*[vals[i] for i in o["ins"]]).values()))
-                elif k == "op17":
+                    return tuple(inline(_legacy11(tuple(o["kw"]["shape"])))(*[vals[i] for i in o["ins"]]).values())
+                if k == "op17":
                     kw = dict(o["kw"])
                     if "to" in kw:
                         kw["to"] = np.dtype(kw["to"]).type
                     ins = [None if i is None else vals[i] for i in o["ins"]]
                     r = getattr(op, o["fn"])(ins, **kw) if o["variadic"] else getattr(op, o["fn"])(*ins, **kw)
-                    vals.append(tuple(r) if isinstance(r, (tuple, list)) else (r,))
-                elif k == "out":
-                    vals.append(vals[o["of"]][o["k"]])
-                elif k == "un_m":
+                    return tuple(r) if isinstance(r, (tuple, list)) else (r,)
+                if k == "out":
+                    return vals[o["of"]][o["k"]]
+                if k == "un_m":
                     mod = importlib.import_module("spox.opset.ai.onnx." + o["mod"])
-                    vals.append(getattr(mod, o["fn"])(vals[o["a"]]))
+                    return getattr(mod, o["fn"])(vals[o["a"]])
+                raise ValueError(o)
+
+            def cone(i, acc):
+                """ops the value of op i is computed from (indices, topological = index order)."""
+                o = ops[i]
+                for key in ("a", "b", "of"):
+                    if key in o and o[key] not in acc:
+                        cone(o[key], acc)
+                for j in o.get("ins", []):
+                    if j is not None and j not in acc:
+                        cone(j, acc)
+                acc.add(i)
+                return acc
+
+            for idx, o in enumerate(ops):
+                k = o["o"]
+                if k == "arg":
+                    if entry == "graph":  # arguments named at creation, as `Graph` users do
+                        from spox._graph import arguments
+
+                        (v,) = arguments(**{case["names"]["in"][str(idx)]: Tensor(NP[o["dt"]], tuple(o["shape"]))})
+                        vals.append(v)
+                    else:
+                        vals.append(argument(Tensor(NP[o["dt"]], tuple(o["shape"]))))
+                elif k == "op17" and entry == "function" and o["fn"] != "inline11":
+                    # the adapted node (with its constant / constant-expression operands) lives in a FUNCTION body whose
+                    # parameters are the model-input operands; the body is built (and version-adapted) with the model
+                    from spox._function import to_function
+
+                    need = sorted(cone(idx, set()))
+                    params = [j for j in need if ops[j]["o"] == "arg"]
+
+                    def inner(xs, _need=need, _params=params, _idx=idx):
+                        local: dict = {j: x for j, x in zip(_params, xs)}
+                        for j in _need:
+                            if j not in local:
+                                local[j] = ev(ops[j], local, True)
+                        return list(local[_idx])
+
+                    # `to_function` reads the signature: exactly one positional parameter per model-input operand, named
+                    # like the user's model inputs (field keys)
+                    pnames = [f"p{j}" for j in params]
+                    body = eval(f"lambda {', '.join(pnames)}: inner([{', '.join(pnames)}])", {"inner": inner})  # noqa: S307
+                    fn = to_function(f"MixF{idx}", "mix.dom")(body)
+                    vals.append(tuple(fn(*[vals[j] for j in params])))
                 else:
-                    raise ValueError(o)
+                    vals.append(ev(o, vals))
     return vals
 
 
@@ -315,6 +366,13 @@ def _build(case: dict, sel: str, fault: Optional[str] = None):
     with warnings.catch_warnings():
         warnings.simplefilter("ignore")
         with L.backend_setting(sel if case.get("build_under") != "none" else "none"):
+            if case.get("entry") == "graph":
+                from spox._graph import results
+
+                g = results(**outs).with_arguments(*ins.values())
+                if case.get("with_opset"):
+                    g = g.with_opset(("ai.onnx", case["with_opset"]))
+                return g.to_onnx_model()
             return spox.build(ins, outs)
 
 
